@@ -1,9 +1,10 @@
 """Control-skeleton tie "wave" (notes/TIE_WAVE.md): emd/cycles.py -> coq/gen/Gen_Skel_Wave.v.
 
-Whole bodies of get_cycle_vector_from_waveform, get_chain_stat, normalised_waveform, mean_vector, basis_project, the
-eight cf_* control-point helpers, get_control_point_metrics and get_control_point_metrics_aug, as terms of
+Whole bodies of get_cycle_vector_from_waveform, get_chain_stat, mean_vector and basis_project as terms of
 lib/PyLoop.v (N16 call_frame_callee, N18 arith_div_pow on).  model/SkelPrims_Wave.v maps the opaque calls to list
 operations / oracles; proofs/SkelFacts_Wave.v proves the refinements.
+(normalised_waveform, the eight cf_* helpers and get_control_point_metrics(_aug) translate too but are not tied
+yet, so they are not emitted.  'interp' is left out of the module aliases: cf_* have a parameter of that name.)
 Always exits 0 (fail closed = poisoned file)."""
 import gen_skeleton
 
@@ -11,20 +12,9 @@ gen_skeleton.generate(
     'emd/cycles.py',
     [('get_cycle_vector_from_waveform', 'body'),
      ('get_chain_stat', 'body'),
-     ('normalised_waveform', 'body'),
      ('mean_vector', 'body'),
-     ('basis_project', 'body'),
-     ('cf_start_value', 'body'),
-     ('cf_end_value', 'body'),
-     ('cf_peak_sample', 'body'),
-     ('cf_peak_value', 'body'),
-     ('cf_trough_sample', 'body'),
-     ('cf_trough_value', 'body'),
-     ('cf_descending_zero_sample', 'body'),
-     ('cf_ascending_zero_sample', 'body'),
-     ('get_control_point_metrics', 'body'),
-     ('get_control_point_metrics_aug', 'body')],
+     ('basis_project', 'body')],
     'Gen_Skel_Wave.v',
-    'Whole bodies of get_cycle_vector_from_waveform, get_chain_stat, normalised_waveform, mean_vector, basis_project, cf_*, get_control_point_metrics(_aug) (C12, C14, C15, C19).',
+    'Whole bodies of get_cycle_vector_from_waveform, get_chain_stat, mean_vector, basis_project (C12, C15, C14, C19).',
     modules={'np', 're', 'warnings', 'functools', 'spectra', 'utils', 'sift', '_cycles_support', 'logging'},
     logger='logger', call_frame_callee=True, arith_div_pow=True)
